@@ -360,6 +360,33 @@ theorem checker_exact (g : SGraph) (min : Rat) (md seed : Nat) (tr : ATrace) (s 
     (h : runC g min 0 md seed tr = some s) : ∃ cs, run g min md seed tr.erase = some (s, cs) :=
   EdxmlProps.Search.runC_zero g min md seed tr s h
 
+/-- C20: the checker that also decides which edges a pass may use (`runC2`) accepts only what the
+checker of the relaxations (`runC`) accepts, with the same resulting confidences: every theorem above
+applies to the traces it accepts -/
+theorem scoped_checker_refines (g : SGraph) (min eps : Rat) (md seed : Nat) (sc : String) (tr : FTrace) (s : SState) (q : Equivs)
+    (h : runC2 g min eps md seed sc tr = some (s, q)) : runC g min eps md seed tr.proj = some s :=
+  EdxmlProps.Search.runC2_sound g min eps md seed sc tr s q h
+
+/-- C20: within one iteration an accepted pass never uses an edge of an inter-concept relation (a
+concept instance does not leak into a related instance), always uses the edges to hubs and those of
+intra-concept relations, and assigns confidences through considered edges only -/
+theorem never_crosses_inter (q : Equivs) (min eps scSelf : Rat) (es : List FEdge) (h : scopeOk q min eps scSelf es = true) :
+    ∀ f ∈ es, (f.edge.kind = .inter → f.considered = false) ∧
+      (f.edge.kind = .toHub ∨ f.edge.kind = .intra → f.considered = true) ∧
+      (f.considered = false → f.assigned = none) :=
+  EdxmlProps.Search.scopeOk_kinds q min eps scSelf es h
+
+/-- C20: the confidence of a node's concept being in scope lies in [0,1] -/
+theorem inScope_unit (q : Equivs) (concept : String) (hq : ∀ e ∈ q, Unit01 e.2.2) : Unit01 (inScope q concept) := by
+  unfold inScope
+  simp only
+  split
+  · exact ⟨le_refl _, by norm_num⟩
+  · apply noisyOr_unit
+    intro c hc
+    obtain ⟨e, he, rfl⟩ := List.mem_map.mp hc
+    exact hq e (List.mem_filter.mp he).1
+
 /-- C20: seed selection ends mining only when every event object node is tainted, and otherwise
 picks an untainted node (which the round then taints: `round_decreases`) that no other candidate
 beats -/
@@ -426,6 +453,8 @@ example : ((run exGraph (1/100) 10 0 exTrace).map fun r => [r.1.sc 0, r.1.sc 1, 
 example : run exGraph (1/100) 10 0 [(0, [⟨1, 9/10⟩, ⟨2, 1/10⟩]), (2, []), (1, [⟨2, 1/2⟩])] = none := by decide +kernel
 -- nor is stopping while a candidate that passes the guard is left
 example : (run exGraph (1/100) 10 0 [(0, [⟨1, 9/10⟩, ⟨2, 1/10⟩])]).isNone = true := by decide +kernel
+example : shareBranch "ca.x" "ca" = true ∧ shareBranch "ca" "cb" = false := by decide +kernel
+example : inScope [("ca", 0, 1), ("cb", 3, 1/2)] "ca.x" = 1 := by decide +kernel
 example : EdxmlProps.Search.GraphOk exGraph :=
   ⟨fun _ => ⟨by simp [exGraph], by simp [exGraph]⟩, fun k => by
     simp only [exGraph]; split <;> exact ⟨by norm_num, by norm_num⟩⟩
